@@ -1,19 +1,20 @@
 import Polar
 open Lean Polar
 
+/-- all operations of the line protocol; builders append `++ Polar.yourOps` on their own line -/
+def allOps : List (String × (Json → D Json)) :=
+  Polar.coreOps
+
 def dispatch (j : Json) : Json :=
   match jField j "op" >>= jStr with
   | .error e => errJson e
   | .ok op =>
-    let r : D Json :=
-      match op with
-      | "moments" => opMoments j
-      | "dist" => opDist j
-      | "distmoment" => opDistMoment j
-      | _ => throw s!"unknown op {op}"
-    match r with
-    | .ok v => v
-    | .error e => errJson e
+    match allOps.lookup op with
+    | none => errJson s!"unknown op {op}"
+    | some f =>
+      match f j with
+      | .ok v => v
+      | .error e => errJson e
 
 partial def loop (h : IO.FS.Stream) (out : IO.FS.Stream) : IO Unit := do
   let line ← h.getLine
